@@ -137,6 +137,9 @@ class SmiV2Lexer(AbstractLexer):
         r'.+?(?=END)'
         t.lexer.lineno += len(re.findall(r'\r\n|\n|\r', t.value))
 
+    def t_macro_error(self, t):
+        raise error.PySmiLexerError("MACRO body is not terminated by END", lineno=t.lineno)
+
     # Skipping EXPORTS
     def t_EXPORTS(self, t):
         r'EXPORTS'
